@@ -127,27 +127,31 @@ def ob_provenance(ctx):
     a0, flen = frag_geometry("module", sp2, N)
     N2 = flen + 5
     ctx.require(Eq(slen(sdata(prod2.seq)), N2), "level2-length")
-    outer = [f for f in prod2.features if f.type == "source" and f.qualifiers.get("plasmid") == P["pid"]]
-    ctx.require(len(outer) == 1, "level2-outer-source-feature")
-    oa, ob_ = ival(parts_of(outer[0])[0][0]), ival(parts_of(outer[0])[0][1])
-    ctx.require(And(Eq(oa, 0), Eq(ob_, flen)), "level2-outer-source-extent")
+    # the fragment cut out of the level-1 product must carry ONE generated source feature naming that product and
+    # covering the whole fragment (even when the product's id coincides with the id of one of its own inputs)
+    named = [f for f in prod2.features if f.type == "source" and f.qualifiers.get("plasmid") == P["pid"]]
+    outer = [f for f in named if bool(And(Eq(ival(parts_of(f)[0][0]), 0), Eq(ival(parts_of(f)[0][1]), flen)))]
+    ctx.require(len(outer) >= 1, "level2-outer-source-feature-missing")
+    oa, ob_ = 0, flen
+    vsrc = [f for f in prod2.features if f.type == "source" and f.qualifiers.get("plasmid") == "vec2"]
+    ctx.require(len(vsrc) == 1 and bool(And(Eq(ival(parts_of(vsrc[0])[0][0]), flen), Eq(ival(parts_of(vsrc[0])[0][1]), N2))),
+                "level2-vector-source-extent")
+    p2 = sdata(prod2.seq)
+    pdata_str = pdata if isinstance(pdata, str) else None
     for f in prod2.features:
-        if f.type != "source" or f is outer[0]:
+        if f.type != "source" or f is outer[0] or f is vsrc[0]:
             continue
         nm = f.qualifiers.get("plasmid")
         a, b = ival(parts_of(f)[0][0]), ival(parts_of(f)[0][1])
-        if nm == "vec2":
-            ctx.require(And(Eq(a, flen), Eq(b, N2)), "level2-vector-source-extent")
-            continue
         ctx.require(nm in plasmids, "level2-unknown-inner-source")
         ctx.require(And(oa <= a, b <= ob_), "inner-source-not-nested-in-outer")
         data, ni = plasmids[nm]
         codes = SSeq.const(data)
-        p2 = sdata(prod2.seq)
         alts = [And([Implies(j < b - a, Eq(sat(p2, a + j), codes.get((s0 + j) % ni))) for j in range(min(ni, N2))])
                 for s0 in range(ni)]
         ctx.require(And(b - a <= ni, Or(alts)), "inner-source-not-verbatim")
         ctx.witness("inner-source-survives")
+    # tiling at the outer level: exactly the outer feature + the vector's cover the product
     return True
 
 
@@ -162,7 +166,11 @@ def obligations(tier, seed):
                               dict(m=m, sym=sym, n=n, ids=ids, pid="prod.1", pname="my product", level2=False),
                               samples=5, cost=n * n * 30))
     for m in (1, 2):
-        obs.append(Ob("two-level re-use m=%d" % m, ob_provenance,
-                      dict(m=m, sym=-1, n=9, ids=idsets[0][:m] + [idsets[0][2]], pid="lvl1", pname="lvl1", level2=True),
-                      samples=5, cost=4000, expect_witness=("inner-source-survives",)))
+        for pid in ("lvl1", idsets[0][0], "assembly"):
+            ids = idsets[0][:m] + [idsets[0][2]]
+            if pid == "assembly":
+                ids = ["assembly"] + ids[1:]
+            obs.append(Ob("two-level re-use m=%d (product id %r, inputs %s)" % (m, pid, ids), ob_provenance,
+                          dict(m=m, sym=-1, n=9, ids=ids, pid=pid, pname="lvl1", level2=True),
+                          samples=5, cost=4000, expect_witness=("inner-source-survives",)))
     return obs
